@@ -9,7 +9,7 @@ CONSTANTS MaxInputs, MaxRank
 VARIABLES st
 P(c) == PrintT(<<"CASE", ToJson(c)>>)
 
-DimKinds == {DFix(2), DFix(3), DSym, DNone}
+DimKinds == {DFix(2), DFix(3), DSym, DNone, DZero, DSymEmpty}
 Decls(n) == [1..n -> UNION {[1..r -> DimKinds] : r \in 1..MaxRank}]       \* dims of each of the n inputs
 InName(i) == "x" \o ToString(i)
 GraphOf(dims, shadow) ==      \* shadow: set of input indexes that are also initializers
